@@ -38,14 +38,14 @@ DIRS = ["site a", "dc1", "ünïcode", "deep", "x.d", "lab"]
 def cases(ctx):
     rng = ctx.rng
     subs = [s for s in M.subsets() if s]
-    for i in range(ctx.per_shard(ctx.pick(48, 3000))):
+    for i in range(ctx.per_shard(ctx.pick(48, 9000))):
         yield {"kind": "tree", "seed": rng.getrandbits(32), "feats": rng.choice(subs), "nfiles": rng.randint(1, 12),
                "faults": "sample", "entry": rng.random() < 0.5, "cli": rng.random() < ctx.pick(0.15, 0.1),
                "strace": (not ctx.quick) and rng.random() < 0.05}
-    for i in range(ctx.per_shard(ctx.pick(4, 160))):
+    for i in range(ctx.per_shard(ctx.pick(4, 480))):
         yield {"kind": "tree", "seed": rng.getrandbits(32), "feats": rng.choice(subs), "nfiles": rng.randint(2, 5 if ctx.quick else 6),
                "faults": "exhaustive", "entry": False, "cli": False, "strace": False}
-    for i in range(ctx.per_shard(ctx.pick(24, 600))):
+    for i in range(ctx.per_shard(ctx.pick(24, 2400))):
         yield {"kind": "single", "seed": rng.getrandbits(32), "feats": rng.choice(subs)}
     if ctx.shard == 0:
         yield {"kind": "tree", "seed": rng.getrandbits(32), "feats": ["pwd", "ip"], "nfiles": 4, "faults": "none",
